@@ -922,9 +922,52 @@ func C17(c *core.Ctx) {
 		} else {
 			bad := ""
 			nEdges := 0
+			// In a tagless switch a case `a && b && c` is built as a VALUE: the last
+			// conjunct has no branch of its own, its comparison feeds the phi that the
+			// switch branches on. For an atom matching such a comparison v (in block B,
+			// joined in J): "v is false" is the path B → J → J's false successor.
+			type phiFed struct {
+				from, join *ssa.BasicBlock
+			}
+			phiFacts := func(a *core.Atom) []phiFed {
+				var out []phiFed
+				core.Instrs(keep.Parent(), func(in ssa.Instruction) {
+					v, ok := in.(*ssa.BinOp)
+					if !ok {
+						return
+					}
+					_, onF := a.Match(v)
+					if onF <= 0 || v.Referrers() == nil {
+						return
+					}
+					for _, r := range *v.Referrers() {
+						ph, isPhi := r.(*ssa.Phi)
+						if !isPhi || len(ph.Block().Instrs) == 0 {
+							continue
+						}
+						j := ph.Block()
+						if iff, isIf := j.Instrs[len(j.Instrs)-1].(*ssa.If); isIf && iff.Cond == ssa.Value(ph) {
+							out = append(out, phiFed{v.Block(), j})
+						}
+					}
+				})
+				return out
+			}
 			for _, pair := range [][2]*core.Atom{{eqL, eqR}, {eqR, eqL}} {
 				cut, _ := core.CutEdges(q, pos(pair[1]))
+				for _, pf := range phiFacts(pair[1]) {
+					cut[core.Edge{From: pf.from, To: pf.join}] = true
+				}
 				reaches := false
+				for _, pf := range phiFacts(pair[0]) {
+					nEdges++
+					hdr := loopHeader(keep.Block())
+					if core.ReachInstrFrom(core.Point{Block: pf.join.Succs[1], Idx: 0}, keep, cut, func(x ssa.Instruction) bool {
+						return hdr != nil && x.Block() == hdr && len(hdr.Instrs) > 0 && x == hdr.Instrs[0]
+					}) != nil {
+						reaches = true
+					}
+				}
 				for _, ef := range core.EdgeFactsDeep(q, pair[0]) {
 					if !ef.Holds || ef.E.From.Parent() != keep.Parent() {
 						continue
